@@ -99,7 +99,7 @@ def robject(rng, g, savable):
     return g.obj(rng.choice([0, 1, 2, 3]))
 
 
-def rtrailer(rng, g, ids, savable):
+def rtrailer(rng, g, ids, savable, force_id=False):
     ents = []
     if ids and rng.random() < 0.7:
         i = rng.choice(ids)
@@ -107,7 +107,7 @@ def rtrailer(rng, g, ids, savable):
     if ids and rng.random() < 0.4:
         i = rng.choice(ids)
         ents.append((b'Info', REF(i[0], i[1])))
-    if rng.random() < 0.4:
+    if rng.random() < 0.4 or force_id:
         ents.append((b'ID', A([H(rbytes(rng, 16)), H(rbytes(rng, 16))])))
     ents += rdict_entries(rng, g, 2, n=rng.choice([0, 0, 1, 2]))
     # bookkeeping keys already present (set replaces in place, Filter is swap-removed)
@@ -127,7 +127,9 @@ def rtrailer(rng, g, ids, savable):
     return out
 
 
-def gen_doc(rng, reals, savable):
+def gen_doc(rng, reals, savable, for_encrypt=False):
+    """for_encrypt: a document Document::encrypt accepts and restores (C05's domain): a file identifier in the trailer, no
+    object number above max_id (add_object numbers the encryption dictionary max_id + 1)"""
     g = ObjGen(rng, reals, allow_ref=True)
     n = rng.choice([0, 1, 1, 2, 3, 4, 6, 9])
     span = rng.choice([n, n + 2, 2 * n + 3, 40])
@@ -150,11 +152,88 @@ def gen_doc(rng, reals, savable):
             max_id = 4294967295
     objs = sorted(set(ids))
     objects = [(i, robject(rng, g, savable)) for i in objs]
-    doc = DOC(rversion(rng, savable).encode('utf-8'), rmark(rng, savable), rtrailer(rng, g, objs, savable), objects, max_id)
+    if for_encrypt:
+        max_id = max([max_id] + nums)
+    doc = DOC(rversion(rng, savable).encode('utf-8'), rmark(rng, savable), rtrailer(rng, g, objs, savable, force_id=for_encrypt), objects, max_id)
     fmt = rng.choice(['table', 'stream'])
     if max_id == 4294967295 - 1:
         fmt = 'stream'
     return fmt, g.finish(doc)
+
+
+def damage_encdoc(rng, enc, what=None):
+    """an encrypted document (case text) with its encryption dictionary or a ciphertext damaged: the decrypt attempt of
+    load_mem and Document::decrypt answer an error, or leave the document as it is -- the same on both sides"""
+    doc = sx_parse(enc)
+    trailer, objs = doc[3], doc[4]
+    ent = [e for e in trailer[1:] if e[0] == xb(b'Encrypt')]
+    if not ent or ent[0][1][0] != 'ref':
+        return None, None
+    eid = ent[0][1][1:3]
+    eobj = [o for o in objs[1:] if o[0] == eid]
+    if not eobj or eobj[0][1][0] != 'd':
+        return None, None
+    ed = eobj[0][1]
+
+    def key(k):
+        for e in ed[1:]:
+            if e[0] == xb(k):
+                return e
+        return None
+    what = what or rng.choice(['cut', 'cut', 'bad-U', 'bad-O', 'no-O', 'no-U', 'V3', 'V9', 'R7', 'Length-7', 'P-name', 'dangling', 'direct', 'no-ID', 'Filter'])
+    if what == 'cut':
+        # the first ciphertext string of at least 2 bytes loses its last byte (AES: no whole number of blocks any more)
+        def cut(o):
+            if isinstance(o, list):
+                if o and o[0] in ('h', 's') and len(o[1]) >= 5:
+                    o[1] = o[1][:-2]
+                    return True
+                return any(cut(x) for x in o[1:])
+            return False
+        if not any(cut(o[1]) for o in objs[1:] if o[0] != eid):
+            return None, None
+    elif what in ('bad-U', 'bad-O'):
+        e = key(what[-1].encode())
+        if e is None or len(e[1][1]) < 3:
+            return None, None
+        e[1][1] = 'x' + ('00' if e[1][1][1:3] != '00' else '01') + e[1][1][3:]
+    elif what in ('no-O', 'no-U'):
+        e = key(what[-1].encode())
+        if e is None:
+            return None, None
+        ed.remove(e)
+    elif what in ('V3', 'V9', 'R7'):
+        e = key(what[0].encode())
+        if e is None:
+            return None, None
+        e[1] = ['i', what[1]]
+    elif what == 'Length-7':
+        e = key(b'Length')
+        if e is None:
+            ed.append([xb(b'Length'), ['i', '7']])
+        else:
+            e[1] = ['i', '7']
+    elif what == 'P-name':
+        e = key(b'P')
+        if e is None:
+            return None, None
+        e[1] = ['n', xb(b'All')]
+    elif what == 'dangling':
+        ent[0][1] = ['ref', '999', '0']
+    elif what == 'direct':
+        ent[0][1] = ed
+        objs.remove(eobj[0])
+    elif what == 'no-ID':
+        e = [t for t in trailer[1:] if t[0] == xb(b'ID')]
+        if not e:
+            return None, None
+        trailer.remove(e[0])
+    elif what == 'Filter':
+        e = key(b'Filter')
+        if e is None:
+            return None, None
+        e[1] = ['n', xb(b'Other')]
+    return sx_print(doc), what
 
 
 _MEMO = {}
@@ -394,6 +473,48 @@ def gen_cases(rng, tier):
             cases.append((L('load', xb(f)), {'kind': 'load-ext', 'nontrivial': True}))
             if rng.random() < 0.3:
                 cases.append((L('load', xb(mutate(rng, f))), {'kind': 'load-ext-mutated', 'nontrivial': True}))
+        # ENCRYPTED documents (Model/LoaderEnc.v + LoaderCrypt.v: the reader's Encrypt branch): documents of the domain encrypted
+        # by lopdf itself (enc-prep: RC4 40 / RC4 128 / AESV2 / AESV3 revision 5) with an EMPTY user password (load_mem decrypts
+        # on the way) or a non-empty one (load_mem returns the document still encrypted; decrypt(PW) with the user or the owner
+        # password follows), saved and loaded in both formats; then files saved from them, damaged
+        n_enc = 24 if tier == 'quick' else 600
+        plain, prep = [], []
+        for k in range(n_enc):
+            fmt, doc = gen_doc(rng, reals, True, for_encrypt=True)
+            kind = ['v1', 'v2', 'v4', 'r5'][k % 4]
+            alpha = b'abcdefXYZ0189 _-!()\\'
+            user = b'' if (k // 4) % 2 == 0 else bytes(rng.choice(alpha) for _ in range(rng.randint(1, 12)))
+            owner = bytes(rng.choice(alpha) for _ in range(rng.randint(1, 12)))
+            if owner == user:
+                owner += b'!'
+            plain.append((fmt, doc, kind, user, owner))
+            prep.append(L('enc-prep', kind, xb(user), xb(owner), doc))
+        encs = vlib.run_lines(impl, prep, timeout=600, shards=8)
+        enc_files = []
+        for (fmt, doc, kind, user, owner), o in zip(plain, encs):
+            o = vlib.split_impl(o)[0]
+            if not o.startswith('(encdoc '):
+                continue
+            enc = o[len('(encdoc '):-1]
+            pw = owner if (user == b'' or rng.random() < 0.4) else user
+            cases.append((L('rt-enc', fmt, doc, enc, xb(pw)),
+                          {'kind': 'rt-enc-%s-%s-%s' % (kind, fmt, 'auto' if user == b'' else ('owner' if pw == owner else 'user')), 'nontrivial': True}))
+            enc_files.append(L('save', fmt, enc))
+            # the same with a damaged encryption dictionary / ciphertext: error classes and "left as it is" (no verdict:
+            # the plain-document slot holds no document)
+            # (AES under an empty user password: a cut ciphertext makes the load itself fail with the decryption error)
+            for forced in ([None, None] + (['cut'] if kind in ('v4', 'r5') and user == b'' else [])):
+                dmg, what = damage_encdoc(rng, enc, forced)
+                if dmg:
+                    cases.append((L('rt-enc', fmt, L('none'), dmg, xb(rng.choice([user, owner, b'']))),
+                                  {'kind': 'rt-enc-damaged-%s-%s' % (what, 'auto' if user == b'' else 'keep'), 'nontrivial': True}))
+        for o in vlib.run_lines(impl, enc_files, timeout=600, shards=8):
+            m = re.match(r'^\(saved x([0-9a-f]*) ', o)
+            if m:
+                f = bytes.fromhex(m.group(1))
+                cases.append((L('load', xb(f)), {'kind': 'load-enc', 'nontrivial': True}))
+                for _ in range(2):
+                    cases.append((L('load', xb(mutate(rng, f))), {'kind': 'load-enc-mutated', 'nontrivial': True}))
         for f in (b'', b'%PDF-1.4', b'%PDF-1.5\n%%EOF\n', b'%PDF-1.4\nstartxref\n0\n%%EOF', b'x' * 40 + b'\nstartxref\n5\n%%EOF',
                   b'%PDF-\xff\n' + b' ' * 30 + b'startxref\n0\n%%EOF'):
             cases.append((L('load', xb(f)), {'kind': 'load-fixed', 'nontrivial': True}))
@@ -512,15 +633,23 @@ SPEC = {
             'strings/keys, sparse object numbers, generations up to 65535, f32 reals printed by Rust itself, version/binary-mark variants, '
             'trailers with and without bookkeeping keys; 20% outside the property domain) saved in both cross-reference formats: model save '
             'bytes and post-save document = Document::save_to byte for byte; direct verdict = save_to, load_mem, compare, second cycle; '
-            'non-trivial = at least one object; distinct = distinct case text',
+            'non-trivial = at least one object; distinct = distinct case text.  ENCRYPTED documents (rt-enc): documents of the domain '
+            'encrypted by lopdf itself (RC4 40 / RC4 128 / AESV2 / AESV3 revision 5; empty user password = load_mem decrypts on the way, '
+            'non-empty = it returns the document still encrypted and decrypt(user or owner password) follows), saved and loaded in both '
+            'formats: model (Model/LoaderEnc.v + LoaderCrypt.v) = save_to + load_mem + decrypt, direct verdict = what comes back is the plain '
+            'document in the property sense; the same with a damaged encryption dictionary / ciphertext (error classes, no verdict); files '
+            'saved from encrypted documents, as they are and damaged (load)',
     'extra_trusted': ['C01: reals are compared as f32 bit patterns (exact decimal->f32 rounding in lib/vlib.py); '
                       'f32 Display/FromStr are Rust std (assumed: from_str(to_string x) = x, Display is shortest round-trip without exponent)'],
     'partial_note': 'PROVED (C01_full): for every document of the domain outside the known class, both cross-reference formats: load (save d) = '
                     'reloaded d with same_doc d (reloaded d), and a second cycle on what came back returns the same document again (same as the '
                     'first reload and as the original). Remaining hypotheses: each of the two files below 4 GiB (small_file for the second file is '
                     'NOT derived from the first: normal forms and Size may differ in length), and for the stream format one spare object number '
-                    'for the second cycle (cycles_fit). Loader model: Length given as a reference, object streams, filtered cross-reference '
-                    'streams and Encrypt are answered (unmodelled) by Model/Loader.v (never reached by a file save wrote; counted in the notes). '
+                    'for the second cycle (cycles_fit). C01_full_enc: the same for documents whose trailer carries Encrypt (savable_enc), read by '
+                    'Model/LoaderEnc.v -- the decrypt attempt gets exactly the reloaded document; C05_encrypt_save_load_decrypt composes it with '
+                    'the security handler. Loader model: Length given as a reference, object streams, filtered cross-reference streams and Encrypt '
+                    'are answered (unmodelled) by Model/Loader.v; LoaderExt.v / LoaderEnc.v / LoaderCrypt.v answer them (conservative extensions, '
+                    'tied by correspondence; a filtered stream without a filter model stays unmodelled and is counted in the notes). '
                     'Open known finding: container nesting deeper than reader::MAX_NESTING (16) is not reloaded (price of the repairs 61b571d / ce95661).',
 }
 
@@ -544,7 +673,9 @@ MANIFEST = {
                   'max_id need NOT bound the object numbers since the repair 19ab1a6), known_deep = false (open known finding), small_file for each of '
                   'the two files (u32 offsets; the bound for the second file is not derived from the first), cycles_fit (stream format: one spare '
                   'object number for the second cycle). Loader features a saved file never uses (Length as reference, object streams, filtered '
-                  'xref streams, Encrypt) are outside Model/Loader.v and tied by correspondence through Model/LoaderExt.v where modelled.',
+                  'xref streams, Encrypt) are outside Model/Loader.v and tied by correspondence through Model/LoaderExt.v / LoaderEnc.v / LoaderCrypt.v '
+                  '(C01_full_enc: a document whose trailer carries Encrypt is handed to the decrypt attempt exactly as reloaded; '
+                  'C01_loader_enc_agrees: no Encrypt entry = the reader of LoaderExt.v).',
     'known_findings': ['C01-deep-nesting (open)', 'C01-stale-max-id (fixed 19ab1a6)'],
 }
 
